@@ -580,6 +580,7 @@ func rulesC14(c *Ctx) {
 	c14Confinement(c)
 	c14Escape(c)
 	c14LiveReads(c)
+	c03MetricsViews(c)
 	// deadlock freedom of the lock-free parts: every blocking channel operation of the library is on the reviewed
 	// inventory (a Try* that blocks, a send outside a select, a wait without a way out are not), and the bulkhead's
 	// semaphore is touched only by the acquire / release protocol
@@ -1071,7 +1072,11 @@ func reachableAfter(a, b ssa.Instruction) bool {
 }
 
 // c14Confinement: (outer spawns innerFn) × (inner has unsynchronised per-execution state).
-func c14Confinement(c *Ctx) {
+func c14Confinement(c *Ctx) { c14ConfinementOf(c, "") }
+
+// c14ConfinementOf: only == "" reports every (spawning outer, stateful inner) pair; otherwise only the pairs whose
+// inner executor is the named one (the clause "for every composition" of that policy's own property).
+func c14ConfinementOf(c *Ctx, only string) {
 	c.Rule("executor-confinement")
 	tab := c.ExecTable()
 	ix := BuildIndex(c.P)
@@ -1157,13 +1162,20 @@ func c14Confinement(c *Ctx) {
 		c.Unresolved("executor-confinement", "neither spawning nor stateful executors found (anchors out of date)")
 		return
 	}
+	reported := 0
 	for _, o := range spawners {
 		for _, i := range stateful {
+			if only != "" && i != only {
+				continue
+			}
+			reported++
 			c.Fail("("+o+","+i+")", "", fmt.Sprintf("composition %s(%s(fn)): the %s executor runs innerFn from several goroutines of one execution while the inner %s executor keeps unsynchronised per-execution state (its mutable fields are written without a lock): concurrent attempts race on it", o, i, o, i), "")
 		}
 	}
 	if len(spawners)*len(stateful) == 0 {
 		c.Ok("executor-confinement", "", "no spawning executor can wrap a stateful one")
+	} else if reported == 0 {
+		c.Ok("executor-confinement/"+only, "", fmt.Sprintf("the %s executor keeps no unsynchronised per-execution state: an enclosing hedge may run it from several goroutines", only))
 	}
 }
 
